@@ -87,6 +87,10 @@ def cases(rng, tier):
                 layouts[(si, ci, -1)] = G.random_layout(rng, t["cols"][ci]["ty"], col["vals"])
                 for pi, (pn, pty, elems, pk) in enumerate(col["props"]):
                     layouts[(si, ci, pi)] = G.random_layout(rng, pty, elems)
+        if rng.random() < 0.25:
+            from vlib import ALLTYPES, rand_elem
+            ty_ = rng.choice(ALLTYPES)
+            t["tmeta"].insert(rng.randint(0, len(t["tmeta"])), (b"NoValue", ty_, None, rand_elem(rng, ty_) if rng.random() < 0.5 else None))
         names = set()
         for col in t["cols"]:
             names.update([b"Name", b"DataType"] + [e[0] for e in col["extra"]])
